@@ -310,11 +310,13 @@ func (b *Batcher) trySendBatchAndUnlock(batch *Batch) {
 	b.outSeq++
 	b.batch = nil
 	verifTrace(vtBatchSeal, b, batch.seq, int64(len(batch.events)), int64(batch.status), int64(batch.eventsSize))
-	b.mu.Unlock()
 
-	verifGate(vgBatchAfterUnlock, b)
+	// send while holding mu: Stop closes fullBatches under mu, so a send after Unlock could hit
+	// a closed channel; the send never blocks (fullBatches has room for every batch)
 	verifTrace(vtBatchPush, b, batch.seq, 0, 0, 0)
 	b.fullBatches <- batch
+	b.mu.Unlock()
+	verifGate(vgBatchAfterUnlock, b)
 }
 
 func (b *Batcher) getBatch() *Batch {
